@@ -1,5 +1,84 @@
-//! Self-tests of the harness' own trusted components.
+//! Self-tests of the harness' own trusted components: RefWord arithmetic is dumped as operation tuples
+//! that `py/refcheck.py` recomputes with Python integers.
 
-pub fn main(_args: &[String]) {
-    println!("selftest: (not yet implemented)");
+use crate::refword::{boundary_words_small, keccak_words, W};
+use std::io::Write;
+
+fn splitmix(state: &mut u64) -> u64 {
+    *state = state.wrapping_add(0x9e3779b97f4a7c15);
+    let mut z = *state;
+    z = (z ^ (z >> 30)).wrapping_mul(0xbf58476d1ce4e5b9);
+    z = (z ^ (z >> 27)).wrapping_mul(0x94d049bb133111eb);
+    z ^ (z >> 31)
+}
+
+pub fn main(args: &[String]) {
+    let out_path = args.first().cloned().unwrap_or_else(|| "work/selftest.tsv".to_string());
+    let mut out = std::io::BufWriter::new(std::fs::File::create(&out_path).expect("create selftest file"));
+    let set = boundary_words_small();
+    let mut st = 0x1234_5678u64;
+    let mut rnd = |st: &mut u64| W([splitmix(st), splitmix(st), splitmix(st), splitmix(st)]);
+    let mut operands: Vec<(W, W)> = vec![];
+    for a in &set {
+        for b in &set {
+            operands.push((*a, *b));
+        }
+    }
+    for _ in 0..4000 {
+        let a = rnd(&mut st);
+        let b = match splitmix(&mut st) % 4 {
+            0 => W::from_u64(splitmix(&mut st) % 300),
+            1 => set[(splitmix(&mut st) % set.len() as u64) as usize],
+            _ => rnd(&mut st),
+        };
+        operands.push((a, b));
+    }
+    let mut n = 0u64;
+    let mut line = |op: &str, args: &[W], r: W, out: &mut dyn Write| {
+        let a: Vec<String> = args.iter().map(|w| w.hex64()).collect();
+        writeln!(out, "{op}\t{}\t{}", a.join("\t"), r.hex64()).unwrap();
+    };
+    for (a, b) in &operands {
+        let (a, b) = (*a, *b);
+        line("add", &[a, b], a.add(b), &mut out);
+        line("sub", &[a, b], a.sub(b), &mut out);
+        line("mul", &[a, b], a.mul(b), &mut out);
+        line("div", &[a, b], a.div(b), &mut out);
+        line("sdiv", &[a, b], a.sdiv(b), &mut out);
+        line("mod", &[a, b], a.rem(b), &mut out);
+        line("smod", &[a, b], a.smod(b), &mut out);
+        line("lt", &[a, b], W::from_bool(a.ult(b)), &mut out);
+        line("gt", &[a, b], W::from_bool(a.ugt(b)), &mut out);
+        line("slt", &[a, b], W::from_bool(a.slt(b)), &mut out);
+        line("sgt", &[a, b], W::from_bool(a.sgt(b)), &mut out);
+        line("and", &[a, b], a.and(b), &mut out);
+        line("or", &[a, b], a.or(b), &mut out);
+        line("xor", &[a, b], a.xor(b), &mut out);
+        line("not", &[a], a.not(), &mut out);
+        // shift amount is the first operand (EVM order)
+        line("shl", &[a, b], b.shl(a), &mut out);
+        line("shr", &[a, b], b.shr(a), &mut out);
+        line("sar", &[a, b], b.sar(a), &mut out);
+        line("signextend", &[a, b], W::signextend(a, b), &mut out);
+        line("byte", &[a, b], W::byte(a, b), &mut out);
+        n += 20;
+    }
+    // the expensive ones on a subset
+    for (i, (a, b)) in operands.iter().enumerate() {
+        if i % 7 != 0 {
+            continue;
+        }
+        let c = operands[(i * 31 + 5) % operands.len()].0;
+        line("exp", &[*a, *b], a.exp(*b), &mut out);
+        line("addmod", &[*a, *b, c], a.addmod(*b, c), &mut out);
+        line("mulmod", &[*a, *b, c], a.mulmod(*b, c), &mut out);
+        n += 3;
+    }
+    // keccak of one and two words (checked against hashlib's sha3 only if a keccak is available;
+    // otherwise against the two known test vectors below)
+    line("keccak1", &[W::ZERO], keccak_words(&[W::ZERO]), &mut out);
+    line("keccak1", &[W::ONE], keccak_words(&[W::ONE]), &mut out);
+    n += 2;
+    out.flush().unwrap();
+    println!("selftest: wrote {n} operation tuples to {out_path}");
 }
